@@ -115,6 +115,49 @@ def mk_bip(g, nx=None):
     return B
 
 
+def with_history(G, edges, n=None, style=None):
+    """Insert *edges* into the cnfgen graph *G* along one of several
+    histories that all end in the same graph: one by one, in one batch,
+    through a batch that is refused half way (the edges before the offending
+    one stay, the caller catches the error and goes on), or after growing
+    the graph from a smaller vertex count.  The style is a function of the
+    specification, so a case stays a pure function of its JSON text."""
+    edges = [tuple(e) for e in edges]
+    if style is None:
+        style = (len(edges) * 3 + (n or 0)) % 6
+    if style == 2 and edges:
+        G.add_edges_from(edges)
+    elif style == 3 and len(edges) >= 2:
+        k = len(edges) // 2
+        try:
+            G.add_edges_from(edges[:k] + [(0, 0)] + edges[k:])
+        except ValueError:
+            pass
+        for e in edges[k:]:
+            G.add_edge(*e)
+    elif style == 4 and len(edges) >= 1 and hasattr(G, "remove_edge"):
+        for e in edges:
+            G.add_edge(*e)
+        G.remove_edge(*edges[0])
+        G.add_edge(*edges[0])
+    else:
+        for e in edges:
+            G.add_edge(*e)
+    return G
+
+
+def grown(cls, n, name=None):
+    """A graph of *n* vertices that started smaller and was grown (two
+    vertices at a time when possible)."""
+    start = max(0, n - 3) if n % 2 else n
+    if not hasattr(cls, "update_vertex_number"):
+        start = n
+    G = cls(start) if name is None else cls(start, name)
+    if start < n:
+        G.update_vertex_number(n)
+    return G
+
+
 def _pow2(rng, hi):
     return rng.choice([x for x in (1, 2, 4, 8, 16) if x <= hi])
 
